@@ -348,7 +348,9 @@ func (e *Evaluator) evalAssignment(assignment *parser.AssignmentStmt) error {
 	}
 	switch n := assignment.Target.(type) {
 	case *parser.Var:
-		e.scope.update(n.Name, val)
+		if !e.scope.update(n.Name, val) {
+			return newErr(n, fmt.Errorf("%w: %s", ErrVarNotSet, n.Name))
+		}
 		return nil
 	case *parser.IndexExpression:
 		return e.evalAssignIndexExpr(n, val)
